@@ -459,6 +459,11 @@ def pushes(prog, rep, tag):
     rep.ob(P, "siblings-agree" + tag, a == b_, "push_pdu and push_pdu_slice_rest perform the same sequence of effects: %s" % a, how="table")
 
 
+def last_seg_(p):
+    from ..core import last_seg, norm
+    return last_seg(norm(p)) if p else None
+
+
 def headers(prog, rep, tag):
     P = "C04.hdr"
     b = prog.body("CreatedFrame::mark_sendable")
@@ -470,12 +475,18 @@ def headers(prog, rep, tag):
     rep.ob(P, "mark_sendable:length" + tag, ok, "the EtherCAT header carries pdu_payload_len() and is written before the frame is published", loc=b.span, how="dataflow")
     ab = prog.body("SendableFrame::as_bytes")
     pr = Prov(ab)
+    from .. import linexpr
+
     ok = False
+    got = None
+    want = {("call", "FrameBox::pdu_payload_len"): 1, 1: 16}
     for c in ab.calls():
         if c.is_("Index::index"):
-            rng = pr.of_operand(c.args[1])
-            if has_root(rng, "call", "EthernetFrame::buffer_len") and has_root(rng, "const", 0):
-                bl = ab.calls_to("EthernetFrame::buffer_len")
-                r2 = pr.of_operand(bl[0].args[0]) if bl else frozenset()
-                ok = has_root(r2, "call", "FrameBox::pdu_payload_len") and any(x[0] == "const" and "PACKED_LEN" in str(x[1]) for x in r2)
-    rep.ob(P, "as_bytes:trimmed" + tag, ok, "as_bytes is frame[0..14 + 2 + pdu_payload_len()]", loc=ab.span, how="dataflow")
+            # the range's end as a linear value: Ethernet header (14) + EtherCAT header (2) + pdu_payload_len()
+            for bi, si, st in q.aggregates(ab, None):
+                if st["rv"].get("ak") == "adt" and last_seg_(st["rv"].get("adt")) in ("Range", "RangeTo") and (op_place(c.args[1]) or {}).get("l") == st["place"]["l"]:
+                    endop = q.agg_field(st, "end")
+                    startop = q.agg_field(st, "start") if last_seg_(st["rv"].get("adt")) == "Range" else None
+                    got = linexpr.lin(prog, ab, endop)
+                    ok = got == want and (startop is None or q.const_int(startop) == 0)
+    rep.ob(P, "as_bytes:trimmed" + tag, ok, "as_bytes is frame[0..14 + 2 + pdu_payload_len()] (range end evaluates to: %s)" % linexpr.show(got), loc=ab.span, how="dataflow")
